@@ -786,7 +786,7 @@ package dsl
 // Cycle detection / dependency sort: a type reference always descends into its type arguments (a cycle can close
 // through an argument of an imported generic), whatever namespace the referenced definition lives in.
 //@ func topologicalSortTypes@emits:"there is a reference cycle, which is not supported, within namespace '%s': %s"
-//@   property C09,C13
+//@   property C09,C13,C08,C10
 //@   ensures type_references_always_descend: typeof(node) == *SimpleType && node.(*SimpleType) != nil ==> called("dsl.(VisitorWithContext[Node]).VisitChildren")
 //@   ensures fields_always_descend: typeof(node) == *Field && node.(*Field) != nil ==> called("dsl.(VisitorWithContext[Node]).VisitChildren")
 // "cyclic type reference": a definition that is met again while it is still on the path being explored (its entry in
